@@ -135,10 +135,29 @@ func judgeOracles(o fsOpts, hist *h.History, m []h.ModelStep, res *result) {
 			if !has(o.oracles, parts[0]) {
 				continue
 			}
-			f := OracleFail{Property: parts[0], Hist: hist.ID, Step: i, What: parts[1], Triggers: append([]string{}, fired...),
+			// triggers named "only:…" delimit a region so common that they may excuse only the
+			// oracle messages that name them ("…\x00only=<trigger>"): nothing else hides behind them
+			msg := strings.SplitN(parts[1], "\x00only=", 2)
+			usable := []string{}
+			for _, t := range fired {
+				if !strings.HasPrefix(t, "only:") || (len(msg) == 2 && has(strings.Split(msg[1], ","), t)) {
+					usable = append(usable, t)
+				}
+			}
+			if len(msg) == 2 {
+				// a message that names its region is excused by that region only
+				only := []string{}
+				for _, t := range usable {
+					if has(strings.Split(msg[1], ","), t) {
+						only = append(only, t)
+					}
+				}
+				usable = only
+			}
+			f := OracleFail{Property: parts[0], Hist: hist.ID, Step: i, What: msg[0], Triggers: append([]string{}, fired...),
 				Calls: append([]string{}, calls...)}
 			if i < divergedAt {
-				f.Known = o.known.Explain(parts[0], fired)
+				f.Known = o.known.Explain(parts[0], usable)
 			}
 			if f.Known != "" {
 				res.KnownHits[f.Known]++
